@@ -31,12 +31,20 @@ if a.only:
 def one(d):
     pid = d.split("-")[0]
     cmd = ["/verif/tools/seed_eval.py", pid, os.path.join(root, d)] + ([] if a.suite else ["--skip-suite"])
+    try:
+        also = json.load(open(os.path.join(root, d, "meta.json"))).get("also_checked_with") or []
+    except Exception:  # noqa: BLE001
+        also = []
+    if also:
+        cmd += ["--also", ",".join(also)]      # a change whose clause a neighbouring property's check owns
     p = subprocess.run(cmd, capture_output=True, text=True, errors="replace")
     line = next((ln for ln in reversed(p.stdout.splitlines()) if ln.startswith("{")), None)
     if line is None:
         return d, {"error": (p.stderr or p.stdout)[-400:]}
     r = json.loads(line)
     chk = r["checks"].get(pid, {})
+    if chk.get("rc") != 1:
+        chk = next((v for k, v in r["checks"].items() if v.get("rc") == 1), chk)
     return d, {"demo_clean_rc": r.get("demo_clean_rc"), "demo_patched_rc": r.get("demo_patched_rc"),
                "suite_ok": r.get("suite_ok"), "check_rc": chk.get("rc"), "signatures": chk.get("signatures", []),
                "harness": chk.get("harness", [])[:2]}
